@@ -498,6 +498,16 @@ class Prop(PropBase):
                 r = self._reader(spec, info)
             except Exception as e:
                 return {"ctor_err": type(e).__name__ + ": " + str(e)[:100]}
+            if isinstance(r, self.R.BasebandReader) and hasattr(type(r), "lower_sideband") and spec.get("seed", 0) % 2 == 0:
+                for bad_mask in (np.array([True, False, True, False, True, False, True]), np.array([[True]] * 3),
+                                 np.array([True] * max(1, info["a"] * info["b"]))[:, None, None],
+                                 np.array([True] * info["a"]), np.array([True] * info["b"])):
+                    if bad_mask.shape == tuple(r.sample_shape) or bad_mask.size == 1:
+                        continue                             # (that one would be a valid mask for this reader)
+                    try:
+                        r.lower_sideband = bad_mask          # wrong shape: refused ...
+                    except Exception:
+                        pass                                 # ... and the reader must read as before
             rej = []
             if isinstance(r, self.R.BasebandReader) and not isinstance(r, (self.R.GUPPIRawReader, self.R.DADAStokesReader)):
                 # inconsistent constructor arguments are refused (ValueError), never turned into a reader
